@@ -241,6 +241,8 @@ def run(prog: Program, rep: Report, tier: str):
     wrapped_cache(prog, rep, wrappers)
     accessors_stateless(prog, rep, wrappers)
     smoothing(prog, rep)
+    mixed_radix(prog, rep)
+    unlabeled_marker(prog, rep)
     names.check(prog, rep, FILES, clause="C16.G1", floor=40)
 
 
@@ -417,3 +419,92 @@ def smoothing(prog: Program, rep: Report):
         rep.decide(ok, "G6.smoothing-mass", of, "one-hot", "to_one_hot_vector(y, n_classes=self.dataset.getdim_class())",
                    "OneHotWrapper does not encode through to_one_hot_vector with the dataset's class count", clause="C16.6",
                    nontrivial=False)
+
+
+def mixed_radix(prog: Program, rep: Report):
+    """Labels composed of two digits (superclass, split) stay inside the declared class range."""
+    rep.rule("G6.label-radix", "where a wrapper composes a label from two parts as 'low + (x % K) * S' and declares its class count "
+             "as a product in getshape_class, the stride S times the modulus K is that product: S is the number of values of "
+             "the low part, so the composed labels fill exactly [0, getshape_class()[0]) - a stride taken from another "
+             "attribute leaves gaps or exceeds the range")
+    n = 0
+    kdw = prog.cls("KDWrapper")
+    for C in prog.subclasses(kdw, include_self=False):
+        gs = C.methods.get("getshape_class")
+        if gs is None:
+            continue
+        ga = fa_of(prog, gs)
+        rets = [t for _, t in ga.returns() if t is not None]
+        if len(rets) != 1 or rets[0][0] != "tuple" or len(rets[0][1]) != 1:
+            continue
+        P = term_to_poly(rets[0][1][0])
+        if len(P.terms) != 1 or len(list(P.atoms())) != 2:
+            continue  # not a product of two attributes
+        for fi in C.methods.values():
+            fa = fa_of(prog, fi)
+            for nd_n, nd in fa.cfg.nodes.items():
+                for e in fa.cfg.all_exprs(nd_n):
+                    for x in ast.walk(e):
+                        if isinstance(x, ast.BinOp) and isinstance(x.op, ast.Mult):
+                            for a, b in ((x.left, x.right), (x.right, x.left)):
+                                a = fa.expand(a, nd_n) if isinstance(a, ast.Name) else a  # 'split = x % K; split * S'
+                                if isinstance(a, ast.BinOp) and isinstance(a.op, ast.Mod):
+                                    K = term_to_poly(fa.sym.term(a.right, nd_n))
+                                    S = term_to_poly(fa.sym.term(b, nd_n))
+                                    n += 1
+                                    ok = (K * S) == P
+                                    o = rep.decide(ok, "G6.label-radix", fi, f"compose:{' '.join(ast.unparse(x).split())[:60]}",
+                                                   f"stride x modulus = {P!r} = the declared class count",
+                                                   f"the label is composed with stride {S!r} and modulus {K!r}, but getshape_class "
+                                                   f"declares {P!r} classes: the composed labels do not fill [0, {P!r}) (gaps, or "
+                                                   f"labels beyond the declared range)", line=x.lineno, clause="C16.1")
+    rep.floor("two-digit label compositions", n, 0)
+
+
+def unlabeled_marker(prog: Program, rep: Report):
+    """-1 marks 'no label' and must survive label-rewriting wrappers on every branch."""
+    rep.rule("G8.unlabeled-marker", "a wrapper whose getitem_class returns the unlabeled marker unchanged on some path ('if y == -1: "
+             "return <marker>') does so before any branch that rewrites the label: no path from the entry to a return that "
+             "computes a new label value bypasses the marker test - an unlabeled sample never comes out as a smoothed / shifted "
+             "-1 that is neither the marker nor a valid encoding")
+    kdw = prog.cls("KDWrapper")
+    n = 0
+    for C in prog.subclasses(kdw, include_self=False):
+        gi = C.methods.get("getitem_class")
+        if gi is None:
+            continue
+        fa = fa_of(prog, gi)
+        cfg = fa.cfg
+        tests = []
+        for t_n, nd in cfg.nodes.items():
+            if nd.kind != "test" or isinstance(nd.owner, ast.Assert):
+                continue
+            for x in ast.walk(nd.ast):
+                if isinstance(x, ast.Compare) and len(x.ops) == 1 and isinstance(x.ops[0], (ast.Eq, ast.NotEq)) and any(
+                        isinstance(y, ast.UnaryOp) and isinstance(y.op, ast.USub) and isinstance(y.operand, ast.Constant)
+                        and y.operand.value == 1 or (isinstance(y, ast.Constant) and y.value == -1)
+                        for y in (x.left, x.comparators[0])):
+                    tests.append(t_n)
+        if not tests:
+            continue
+        n += 1
+        rets = [r for r, nd in cfg.nodes.items() if nd.kind == "stmt" and isinstance(nd.ast, ast.Return)]
+        # returning the wrapped dataset's label unchanged is no rewrite
+        def passthrough(r):
+            v = cfg.nodes[r].ast.value
+            t = fa.sym.term(v, r) if v is not None else None
+            if t is None:
+                return False
+            if t[0] == "call" and t[1] == ("attr", ("self", "dataset"), "getitem_class"):
+                return True
+            if t[0] == "var":
+                vals = [cfg.def_value(d, t[1]) for d in t[2] if cfg.nodes[d].kind != "entry"]
+                return bool(vals) and all(isinstance(x, ast.Call) and isinstance(x.func, ast.Attribute)
+                                          and x.func.attr == "getitem_class" for x in vals)
+            return False
+        bypass = [r for r in rets if not cfg.must_pass(set(tests), src=cfg.entry, dst=r) and not passthrough(r)]
+        rep.decide(not bypass, "G8.unlabeled-marker", gi, "marker-test-first", "every return lies behind the unlabeled-marker test",
+                   f"a return (line {', '.join(str(cfg.nodes[r].lineno) for r in bypass[:3])}) is reachable without passing the "
+                   f"'== -1' test: on that branch an unlabeled sample is rewritten like a labeled one", line=cfg.nodes[bypass[0]].lineno
+                   if bypass else gi.node.lineno, clause="C16.3")
+    rep.floor("label wrappers that test for the unlabeled marker", n, 1)
